@@ -166,6 +166,29 @@ def oracle(line, out, mode):
     return None
 
 
+_TS = None
+
+
+def canon(out):
+    """the receive-path query prints the Display text of the creation timestamp: beyond year 9999 its wording is free (C17 only asks
+    for 'no panic' there), so a text that is not an RFC 3339 date is compared as such, not letter by letter"""
+    global _TS
+    import re
+    import runner
+    if out is None:
+        return out
+    if _TS is None:
+        _TS = re.compile(r" TS x([0-9a-f]*)")
+
+    def repl(m):
+        try:
+            txt = bytes.fromhex(m.group(1)).decode("utf-8", "replace")
+        except ValueError:
+            return m.group(0)
+        return m.group(0) if re.match(r"^[0-9]{4}-[0-9]{2}-[0-9]{2}T", txt) else " TS <text that is not an RFC 3339 date>"
+    return runner.default_canon(_TS.sub(repl, out) if " TS x" in out else out)
+
+
 def same(line, io, mo):
     return line.startswith("DECA ")      # measured on the implementation only (the model prints NA)
 
